@@ -357,3 +357,15 @@ func (g *sgen) header(ap bool) string {
 	}
 	return g.r.pick(nonApHeaders)
 }
+
+// the elements of a value written by asList (scalar = one element)
+func jlist(x interface{}) []interface{} {
+	switch v := x.(type) {
+	case nil:
+		return nil
+	case []interface{}:
+		return append([]interface{}{}, v...)
+	default:
+		return []interface{}{v}
+	}
+}
